@@ -248,27 +248,27 @@ func Spec() *mon.Spec {
 			"The window between os.Remove(sock) and listener.Close() in Serve has no pause point; only its effect (a live daemon's socket vanishing without a logged removal) is checked.",
 		},
 		Phases: []mon.Phase{
-			{Name: "forced", Quick: len(table), Thorough: 3 * len(table), Run: runForced, Timeout: 150 * time.Second, Batch: 3, GoMaxProcs: 2},
-			{Name: "random", Quick: 120, Thorough: 2000, Run: runRandom, Timeout: 150 * time.Second, Batch: 4, GoMaxProcs: 2},
+			{Name: "forced", Quick: len(table), Thorough: 2 * len(table), Run: runForced, Timeout: 150 * time.Second, Batch: 3, GoMaxProcs: 2},
+			{Name: "random", Quick: 90, Thorough: 800, Run: runRandom, Timeout: 150 * time.Second, Batch: 4, GoMaxProcs: 2},
 		},
 		// Floors are ≤ 1/3 of what the quick tier reaches; none of them depends
 		// on a known defect being present.
 		Floors: map[string]int{
-			"distinct_nontrivial":              90,
+			"distinct_nontrivial":              80,
 			"schedules":                        70,
-			"activations_ok":                   200,
+			"activations_ok":                   150,
 			"activations_err":                  3,
-			"daemons_spawned":                  180,
-			"daemons_own_db":                   150,
+			"daemons_spawned":                  160,
+			"daemons_own_db":                   120,
 			"daemons_lost_listen_race":         15,
 			"socket_removed_by_activator":      60,
 			"daemon_exits_removing_own_socket": 100,
-			"held_clients_served_again":        200,
+			"held_clients_served_again":        150,
 			"detected_status_0":                25,
 			"detected_status_1":                80,
 			"detected_status_3":                70,
 			"daemon_startup_crashes":           2,
-			"stale_by_sigkill":                 15,
+			"stale_by_sigkill":                 10,
 		},
 	}
 }
